@@ -13,13 +13,24 @@ shape (str, bytes, list, unsized iterable, streamed generator, file object, http
                      independent of the model - must recover status, application headers and the
                      exact body of every response from the connection's bytes, find nothing left
                      over, and the close event must occur iff the last response announced it;
-                     (2) the same with Python's http.client.HTTPResponse as the reader.
+                     (2) the same with Python's http.client.HTTPResponse as the reader;
+                     (0, judged first) own_request_check: on a connection that was kept alive the k-th response
+                     (k >= 1) answers the k-th request - its status, and the k-th request's tag wherever a tag
+                     is carried (X-Case of a handler answer, Location of the redirect the server makes for an
+                     un-normalised target): signature wrong-response-for-request(keepalive).  Directed
+                     sequences (keepalive_sequence_cases) mix ordinary requests with the ones the server
+                     answers itself: un-normalised path -> 301, unknown path -> 404, HEAD, httperror events.
  E  end to end     : (spec on impl only, no model) a real circuits.web.Server with Controllers on a
                      loopback socket in a background thread, SO_SNDBUF 64 KiB so that send() is partial;
                      http.client.HTTPConnection sends GET/HEAD, HTTP/1.1 keep-alive sequences and
                      HTTP/1.0 / Connection: close requests for bodies of 0 B .. 2 MiB (8 MiB thorough) and
                      must recover status, X-Case header and body (length + sha256 of what the controller
-                     produced); the connection must be closed iff the response announced it.
+                     produced); the connection must be closed iff the response announced it.  The same
+                     per-request clause: every request has its own tag in the target; sequences on one
+                     kept-alive connection mix body requests with un-normalised paths (redirect to the normal
+                     form of THAT target, or its handler's answer), unknown paths (404), HEAD, and handlers
+                     returning httperror / notfound / forbidden / redirect events:
+                     e2e-wrong-response-for-request(keepalive).
 """
 import hashlib
 import http.client
@@ -27,6 +38,7 @@ import io
 import itertools
 import socket
 import time
+import urllib.parse
 
 from framework import Infra, hx
 
@@ -94,6 +106,30 @@ def request_bytes(rq, path):
     return (s + '\r\n').encode()
 
 
+# rq['via'] (in-process cases): how the request reaches an answer that the server makes itself
+#   'dotdot' | 'dot'  the target is an un-normalised spelling of the handler's path /c<i>: HTTP._on_read's path
+#                     guard answers 301 with Location = the normal form (no handler runs)
+#   'unknown'         no handler serves the target: 404
+# absent / None: the application's handler answers (rq['body']; kind 'httperror' = it returns an httperror event)
+VIA_TARGET = {'dotdot': '/x/../c{i}', 'dot': '/./c{i}', 'unknown': '/nosuch{i}'}
+VIA_STATUS = {'dotdot': 301, 'dot': 301, 'unknown': 404}
+
+
+def request_target(rq, i):
+    return VIA_TARGET.get(rq.get('via'), '/c{i}').format(i=i)
+
+
+def expected_status(rq):
+    if rq.get('via'):
+        return VIA_STATUS[rq['via']]
+    return rq.get('status') or (500 if rq['body']['kind'] == 'httperror' else 200)
+
+
+def expected_location(rq, i):
+    """the only Location a response to request i may carry (request_bytes sends `Host: x`)"""
+    return f'http://x/c{i}' if rq.get('via') in ('dotdot', 'dot') else None
+
+
 def keep_alive(rq):
     c = (rq.get('conn') or '').lower()
     if c == 'close':
@@ -147,8 +183,9 @@ class Impl:
             rig.app.produced = {}
             before = len(rig.wire(tok))
             nerr = len(rig.srv.errors)
+            npages = len(rig.srv.errpages)
             try:
-                rig.feed(tok, request_bytes(rq, path))
+                rig.feed(tok, request_bytes(rq, request_target(rq, i)))
             except RuntimeError as e:       # queue never drains: the rig is unusable afterwards
                 self.rig = None
                 out.append({'acts': list(rig.wire(tok)[before:]), 'stale': True, 'closed': closed,
@@ -156,12 +193,17 @@ class Impl:
                 break
             acts = list(rig.wire(tok)[before:])
             closed = any(a[0] == 'c' for a in rig.wire(tok))
+            produced = rig.app.produced.get(path)
+            if rq.get('via'):        # the page the server made for this request (none: a handler answered)
+                pages = rig.srv.errpages[npages:]
+                produced = pages[-1] if pages else None
             out.append({'acts': acts, 'stale': rig.clients(tok), 'closed': closed,
-                        'produced': rig.app.produced.get(path), 'exc': rig.srv.errors[nerr:]})
+                        'produced': produced, 'exc': rig.srv.errors[nerr:]})
         rig.srv.wire.pop(tok, None)
         rig.srv.http._clients.pop(tok, None)
         rig.srv.http._buffers.pop(tok, None)
         del rig.srv.errors[:]
+        del rig.srv.errpages[:]
         return out
 
 
@@ -216,6 +258,44 @@ def client_check(wire, closed, expects):
     return None
 
 
+_OWN_DETAIL = ['']      # text for the report: set by the latest failing own_request_check
+
+
+def own_request_check(wire, reqs, expects):
+    """'on a kept-alive connection each further request is answered correctly after the previous response':
+       the k-th response (k >= 1, so every response before it left the connection open) must be an answer to
+       the k-th request - its status, and the k-th request's tag wherever a tag is carried (X-Case of a handler
+       answer, Location of a redirect made for the request target).  Framing is not judged here: a response
+       that cannot be read is left to the readers below.  -> None or (clause, k)"""
+    fp = _NoClose(wire)
+    for k, (rq, e) in enumerate(zip(reqs, expects)):
+        if fp.tell() >= len(wire) or e['status'] == 100:
+            return None
+        r = http.client.HTTPResponse(_Sock(fp), method='HEAD' if e['head'] else 'GET')
+        try:
+            r.begin()
+        except (http.client.HTTPException, ValueError, OSError):
+            return None
+        xcase, location = r.getheader('X-Case'), r.getheader('Location')
+        own = (r.status == e['status'] and xcase in (None, f't{k}')
+               and location in (None, expected_location(rq, k)))
+        if not own:
+            # the first response of a connection is judged by the readers (status-mismatch, header-lost)
+            _OWN_DETAIL[0] = (f"request {k} ({rq['method']} {request_target(rq, k)}) expects status {e['status']}"
+                              + (f", Location {expected_location(rq, k)}" if expected_location(rq, k) else '')
+                              + ('' if rq.get('via') else f", X-Case t{k}")
+                              + f"; the response at that position has status {r.status}, X-Case {xcase}, "
+                              f"Location {location}")
+            return ('wrong-response-for-request', k) if k > 0 else None
+        try:
+            r.read()
+        except (http.client.HTTPException, ValueError, OSError):
+            return None
+        if r.will_close:
+            return None
+    return None
+
+
 # ---------------------------------------------------------------------------------------
 # evaluation
 # ---------------------------------------------------------------------------------------
@@ -237,8 +317,13 @@ def features(case, idx):
     reqs = case['reqs']
     idx = min(idx, len(reqs) - 1)
     rq = reqs[idx]
-    st = rq.get('status') or (500 if rq['body']['kind'] == 'httperror' else 200)
+    st = expected_status(rq)
     tags = [rq['method']]
+    if rq.get('via'):
+        tags.append('no-handler' if rq['via'] == 'unknown' else 'path-guard')
+        if idx > 0:
+            tags.append('after-' + reqs[idx - 1]['method'])
+        return ','.join(tags)
     if st < 200:
         tags.append('1xx')
     elif st in (204, 205, 304, 413):
@@ -266,8 +351,8 @@ def evaluate(ctx, impl, cases, shrink=True):
         o = []
         for i, rq in enumerate(c['reqs']):
             b = rq['body']
-            status = rq.get('status') or (500 if b['kind'] == 'httperror' else 200)
-            if b['kind'] == 'httperror':
+            status = expected_status(rq)
+            if b['kind'] == 'httperror' or rq.get('via'):
                 prod = obs[i]['produced'] if i < len(obs) else None
                 body = prod if prod is not None else b''
                 mk, mparts, force = 'sized', ([body] if body else []), True
@@ -275,7 +360,12 @@ def evaluate(ctx, impl, cases, shrink=True):
                 body = produced_bytes(b)
                 mk, mparts = model_body(b, impl.bufsize)
                 force = False
-            hdrs = [('X-Case', f't{i}')] + ([('Content-Type', rq['ctype'])] if rq.get('ctype') else [])
+            if rq.get('via') in ('dotdot', 'dot'):    # redirect(): Content-Type, then Location
+                hdrs = [('Content-Type', 'text/html'), ('Location', expected_location(rq, i))]
+            elif rq.get('via'):
+                hdrs = []
+            else:
+                hdrs = [('X-Case', f't{i}')] + ([('Content-Type', rq['ctype'])] if rq.get('ctype') else [])
             expects.append({'head': rq['method'] == 'HEAD', 'status': status, 'body': body, 'hdrs': hdrs})
             reason = impl.reasons.get(status, '')
             o.append('serve {} {} {} {} {} {} {} {} | {}'.format(
@@ -324,11 +414,12 @@ def evaluate(ctx, impl, cases, shrink=True):
                                  'impl': want[-400:], 'model': a[-400:], 'exc': obs[i]['exc'][:2]})
                 break
         # ---- C: spec on impl (Lean reader, then http.client)
-        failure = None
+        failure = own_request_check(wire, c['reqs'], expects)
         sp = ans[n]
         if sp.startswith('fail'):
             _f, clause, idx = sp.split()
-            failure = (clause, int(idx))
+            if failure is None:
+                failure = (clause, int(idx))
         elif sp != 'ok':
             ctx.disagree(c, {'where': 'httpresp.spec', 'impl': 'n/a', 'model': sp})
         if failure is None and not after:
@@ -348,17 +439,28 @@ def evaluate(ctx, impl, cases, shrink=True):
                 ctx.count('violations_same_shape_not_reshrunk', shape[0])
                 fc = None
             if fc is not None:
-                ctx.violate(fc, f'{clause}({features(fc, idx)})',
+                if clause == 'wrong-response-for-request':
+                    sig = f'{clause}(keepalive)'
+                    clause += (' (kept-alive connection: the response is not an answer to the request at this '
+                               f'position: {_OWN_DETAIL[0]}; exchange: {features(fc, idx)})')
+                else:
+                    sig = f'{clause}({features(fc, idx)})'
+                ctx.violate(fc, sig,
                             f'response {idx} on the connection: {clause}; requests: '
-                            + '; '.join(f"{r['method']} HTTP/{r['ver']} conn={r.get('conn')} "
-                                        f"status={r.get('status')} body={r['body']['kind']}" for r in fc['reqs']))
+                            + '; '.join(f"{r['method']} {request_target(r, k)} HTTP/{r['ver']} conn={r.get('conn')} "
+                                        f"status={r.get('status')} body={r['body']['kind']}"
+                                        for k, r in enumerate(fc['reqs'])))
         # ---- bookkeeping
         for i, rq in enumerate(c['reqs']):
             if i < len(obs):
                 ctx.count('method', rq['method'])
                 ctx.count('version', rq['ver'])
                 ctx.count('connection_header', rq.get('conn') or 'absent')
-                ctx.count('body_kind', rq['body']['kind'])
+                ctx.count('body_kind', rq['body']['kind'] if not rq.get('via') else 'server page (' + rq['via'] + ')')
+                ctx.count('answered_by', {None: 'handler', 'dotdot': 'server: path guard 301 (/x/../c)',
+                                          'dot': 'server: path guard 301 (/./c)',
+                                          'unknown': 'server: no handler 404'}[rq.get('via')]
+                          if rq['body']['kind'] != 'httperror' or rq.get('via') else 'handler returns httperror')
                 ctx.count('status', expects[i]['status'])
                 ln = len(expects[i]['body'])
                 ctx.count('body_size', '0' if ln == 0 else '1-99' if ln < 100 else '100-4095' if ln < 4096
@@ -537,12 +639,46 @@ def random_request(rng, keepish=True):
     return rq
 
 
+def self_answered_request(via, method, ver, conn):
+    """a request the server answers itself; its table entry is what the handler of the normal form would say"""
+    return {'method': method, 'ver': ver, 'conn': conn, 'status': None, 'via': via,
+            'body': {'kind': 'str', 'parts': [S('behind the guard')]}}
+
+
+def keepalive_sequence_cases():
+    """directed: every kind of answer the server (or an httperror event of the handler) makes itself, at the
+       start of a connection / after a GET / after a HEAD, for every version x Connection wish, followed by two
+       further requests of other kinds.  Whatever the server leaves open must go on answering request by request."""
+    cases = []
+    selfish = [('dotdot', 'GET'), ('dot', 'GET'), ('dotdot', 'HEAD'), ('unknown', 'GET'), ('unknown', 'HEAD'),
+               ('httperror', 404), ('httperror', 403), ('httperror', 500)]
+    for (ver, conn), (what, arg) in itertools.product(
+            [('1.1', None), ('1.1', 'keep-alive'), ('1.0', 'keep-alive'), ('1.0', None), ('1.1', 'close')], selfish):
+        def plain(method, kind, parts, status=None, ver=ver, conn=conn):
+            return {'method': method, 'ver': ver, 'conn': conn, 'status': status, 'body': {'kind': kind, 'parts': parts}}
+        if what == 'httperror':
+            sa = plain('GET', 'httperror', [], arg)
+        else:
+            sa = self_answered_request(what, arg, ver, conn)
+        tails = [[plain('GET', 'str', [S('second')]), plain('HEAD', 'gen', [S('a'), Bt(b'bc')])],
+                 [plain('HEAD', 'str', [S('second')]), self_answered_request('dot', 'GET', ver, conn)],
+                 [self_answered_request('unknown', 'GET', ver, conn), plain('GET', 'sgen', [S('a'), S(''), Bt(b'b')])]]
+        leads = [[], [plain('GET', 'list', [S('a'), Bt(b'bc')], 404)], [plain('HEAD', 'bytes', [Bt(b'first')])]]
+        for k, lead in enumerate(leads):
+            cases.append({'kind': 'conn', 'reqs': lead + [sa] + tails[k]})
+    return cases
+
+
 def sequence_cases(ctx):
     rng = ctx.rng
     cases = []
     for _ in range(250 * ctx.scale):
         n = rng.randint(2, 4)
-        cases.append({'kind': 'conn', 'reqs': [random_request(rng) for _ in range(n)]})
+        reqs = [random_request(rng) for _ in range(n)]
+        for k, rq in enumerate(reqs):
+            if rng.random() < 0.12:
+                reqs[k] = self_answered_request(rng.choice(['dotdot', 'dot', 'unknown']), rq['method'], rq['ver'], rq['conn'])
+        cases.append({'kind': 'conn', 'reqs': reqs})
     return cases
 
 
@@ -572,13 +708,130 @@ def e2e_size_class(n):
     return {0: '0', 1: '1', 70 * KIB: '70KiB', 2 * MIB: '2MiB', 8 * MIB: '8MiB'}.get(n, f'{n}B')
 
 
-def e2e_req(method, ver, conn, kind, size, piece=0, status=200):
-    return {'method': method, 'ver': ver, 'conn': conn, 'body': kind, 'size': size, 'piece': piece,
-            'status': status}
+def e2e_req(method, ver, conn, kind, size, piece=0, status=200, via=None):
+    rq = {'method': method, 'ver': ver, 'conn': conn, 'body': kind, 'size': size, 'piece': piece,
+          'status': status}
+    if via:
+        rq['via'] = via
+    return rq
 
 
-def e2e_bodyless(rq):
-    return rq['method'] == 'HEAD' or rq['status'] < 200 or rq['status'] in BODYLESS
+# (via, status, method) of the requests that are answered by the server itself / by an error or redirect event
+E2E_SELF_ANSWERED = [('dotdot', 200, 'GET'), ('dot', 200, 'GET'), ('unknown', 404, 'GET'), ('event', 404, 'GET'),
+                     ('event', 403, 'GET'), ('event', 500, 'GET'), ('notfound', 404, 'GET'), ('forbidden', 403, 'GET'),
+                     ('redirect', 303, 'GET'), ('redirect', 303, 'HEAD'), ('event', 410, 'HEAD'),
+                     ('unknown', 404, 'HEAD'), ('dotdot', 200, 'HEAD')]
+
+
+def e2e_self_answered(via, status, method, ver, conn):
+    return e2e_req(method, ver, conn, 'bytes', 1, 0, status, via)
+
+
+def e2e_keepalive_sequence_cases():
+    """directed: every self-answered request kind on connections the client wants kept alive (HTTP/1.1, HTTP/1.1 +
+       Connection: keep-alive, HTTP/1.0 + Connection: keep-alive), first on the connection and after ordinary
+       requests, each followed by further requests of other kinds (ordinary GET, HEAD, a streamed body, another
+       self-answered request) - whatever the server keeps alive must go on answering request by request"""
+    cases = []
+    flavours = [('1.1', None), ('1.1', 'keep-alive'), ('1.0', 'keep-alive')]
+    for si, (via, status, method) in enumerate(E2E_SELF_ANSWERED):      # GET first: a lost answer costs a timeout
+        for fi, (ver, conn) in enumerate(flavours):
+            def plain(method='GET', kind='bytes', size=1, status=200, ver=ver, conn=conn):
+                return e2e_req(method, ver, conn, kind, size, 0, status)
+            sa = e2e_self_answered(via, status, method, ver, conn)
+            other = E2E_SELF_ANSWERED[(si + 3 + fi) % len(E2E_SELF_ANSWERED)]
+            tail = [plain(), plain('HEAD', 'str', 70 * KIB), e2e_self_answered(*other, ver, conn),
+                    plain('GET', 'list' if ver == '1.0' else 'sgen', 4097)]
+            cases.append({'kind': 'e2e', 'sndbuf': E2E_SNDBUF, 'reqs': [sa] + tail})
+            lead = [plain('GET', 'str', 70 * KIB), plain('HEAD')] if (si + fi) % 2 else [plain('GET', 'list', 1, 404)]
+            cases.append({'kind': 'e2e', 'sndbuf': E2E_SNDBUF, 'reqs': lead + [sa] + tail[:2]})
+    return cases
+
+
+def e2e_bodyless(rq, status=None):
+    st = rq['status'] if status is None else status
+    return rq['method'] == 'HEAD' or st < 200 or st in BODYLESS
+
+
+# Requests the server (or an error / redirect event made by the handler) answers: rq['via'] =
+#   'dotdot' | 'dot'   an un-normalised spelling of the handler's path (/x/../k..., /./k...): the server's path
+#                      guard answers with a redirect to the normal form (or, equally acceptable, the handler's
+#                      own answer is delivered)
+#   'unknown'          no handler: 404
+#   'event' | 'notfound' | 'forbidden' | 'redirect'
+#                      E2ERoot.kanswer: the handler returns httperror(status) / self.notfound() /
+#                      self.forbidden() / self.redirect(<a path that ends in the request's tag>)
+# absent / None = the ordinary body requests.  Every request has its own tag; the tag is in the request target,
+# handler answers echo it in X-Case, redirects carry it in Location.
+E2E_REDIRECTS = (301, 302, 303, 307, 308)
+E2E_ANSWERED_BY = {None: 'handler result (body kinds)', 'dotdot': 'server: un-normalised path /x/../<path>',
+                   'dot': 'server: un-normalised path /./<path>', 'unknown': 'server: no handler (404)',
+                   'event': 'handler returns httperror(status)', 'notfound': 'handler returns self.notfound()',
+                   'forbidden': 'handler returns self.forbidden()', 'redirect': 'handler returns self.redirect()'}
+E2E_VIA_GUARD = ('dotdot', 'dot')
+E2E_VIA_HANDLER = {'event': None, 'notfound': 404, 'forbidden': 403, 'redirect': 303}
+
+
+def e2e_target(rq, tag):
+    """-> (request target as sent, the normal form a redirect may point to)"""
+    via = rq.get('via')
+    plain = f"/k{rq['body']}/{rq['size']}/{rq['piece']}/{rq['status']}/{tag}"
+    if via == 'dotdot':
+        return '/x/..' + plain, plain
+    if via == 'dot':
+        return '/.' + plain, plain
+    if via == 'unknown':
+        return f'/nosuch/{tag}', None
+    if via == 'redirect':
+        return f"/kanswer/redirect/{rq['status']}/{tag}", f'/kbytes/1/0/200/{tag}'
+    if via in E2E_VIA_HANDLER:
+        return f"/kanswer/{via}/{rq['status']}/{tag}", None
+    return plain, None
+
+
+def e2e_location_ok(location, want_path, srv):
+    if location is None:
+        return False
+    u = urllib.parse.urlsplit(location)
+    return (u.path == want_path and u.scheme in ('', 'http')
+            and u.netloc in ('', f'{srv.host}:{srv.port}', f'localhost:{srv.port}'))
+
+
+def e2e_answers_request(rq, tag, normal, status, xcase, location, srv):
+    """is (status, X-Case, Location) an answer to THIS request?  -> (None | 'status' | 'token' | 'header', detail,
+       handler_body: must the body be what the controller recorded for the tag?)"""
+    via = rq.get('via')
+    if xcase is not None and xcase != tag:
+        return 'token', f'X-Case {xcase!r} is the tag of another request (this one: {tag!r})', False
+    if via in E2E_VIA_GUARD:
+        if status in E2E_REDIRECTS:
+            if e2e_location_ok(location, normal, srv):
+                return None, '', False
+            return 'token', f'redirect {status} to {location!r}, expected the normal form {normal!r} of its own target', False
+        if status == rq['status'] and xcase == tag:      # the handler of the normal form answered
+            return None, '', True
+        return 'status', (f'status {status} (X-Case {xcase!r}, Location {location!r}), expected a redirect to '
+                          f'{normal!r} or the answer of its handler'), False
+    if via == 'unknown':
+        if status != 404:
+            return 'status', f'status {status} (Location {location!r}) for a path nothing serves, expected 404', False
+        if location is not None:
+            return 'token', f'404 with Location {location!r}', False
+        return None, '', False
+    if via == 'redirect':
+        if status not in E2E_REDIRECTS:
+            return 'status', f'status {status}, the handler returned a redirect', False
+        if not e2e_location_ok(location, normal, srv):
+            return 'token', f'redirect {status} to {location!r}, the handler redirected to {normal!r}', False
+        if xcase is None:
+            return 'header', f'X-Case missing, expected {tag!r}', False
+        return None, '', False
+    want = E2E_VIA_HANDLER.get(via) or rq['status']
+    if status != want:
+        return 'status', f'status {status}, expected {want}' + (f' (Location {location!r})' if location else ''), False
+    if xcase is None:
+        return 'header', f'X-Case missing, expected {tag!r}', False
+    return None, '', via is None
 
 
 def e2e_after_close(peek):
@@ -626,8 +879,10 @@ def e2e_exchange(srv, case):
             rq = reqs[i]
             probe = i >= n
             tag = f'e{next(_E2E_TAG)}'
-            path = f"/k{rq['body']}/{rq['size']}/{rq['piece']}/{rq['status']}/{tag}"
-            desc = f"{'probe ' if probe else ''}{rq['method']} {rq['body']}[{e2e_size_class(rq['size'])}] HTTP/{rq['ver']}"
+            path, normal = e2e_target(rq, tag)
+            desc = (f"{'probe ' if probe else ''}{rq['method']} "
+                    + (f"{path} " if rq.get('via') else f"{rq['body']}[{e2e_size_class(rq['size'])}] ")
+                    + f"HTTP/{rq['ver']}")
             began = False
             try:
                 conn._http_vsn, conn._http_vsn_str = (11, 'HTTP/1.1') if rq['ver'] == '1.1' else (10, 'HTTP/1.0')
@@ -641,6 +896,7 @@ def e2e_exchange(srv, case):
                 chunked = bool(resp.chunked)
                 clen = resp.getheader('Content-Length')
                 xcase = resp.getheader('X-Case')
+                location = resp.getheader('Location')
                 status = resp.status
                 h = hashlib.sha256()
                 got = 0
@@ -656,21 +912,31 @@ def e2e_exchange(srv, case):
                                 f'response {i - 1} announced no close, but the connection was gone for the next '
                                 f'request ({desc}: {e!r})')
                 return fail('undecodable', i, f'{desc}: {e!r}'[:300], type(e).__name__)
-            obs.append({'rq': rq, 'probe': probe, 'will_close': will_close,
-                        'delimiter': 'none(bodyless)' if e2e_bodyless(rq) else 'chunked' if chunked else
+            obs.append({'rq': rq, 'probe': probe, 'will_close': will_close, 'status': status,
+                        'delimiter': 'none(bodyless)' if e2e_bodyless(rq, status) else 'chunked' if chunked else
                         'content-length' if clen is not None else 'close'})
-            if status != rq['status']:
-                return fail('status-mismatch', i, f'{desc}: status {status}, expected {rq["status"]}')
-            if xcase != tag:
-                return fail('header-lost', i, f'{desc}: X-Case {xcase!r}, expected {tag!r}')
-            produced = srv.produced.pop(tag, None)
-            if produced is None:
-                return fail('body-mismatch', i, f'{desc}: the controller was not reached')
-            want = (0, hashlib.sha256(b'').hexdigest()) if e2e_bodyless(rq) else produced
-            if (got, h.hexdigest()) != want:
-                return fail('body-mismatch', i,
-                            f'{desc}: client read {got} bytes sha256 {h.hexdigest()[:16]}, '
-                            f'controller produced {want[0]} bytes sha256 {want[1][:16]}')
+            # the i-th response must be an answer to the i-th request (its status; its tag wherever a tag is carried)
+            bad, why, handler_body = e2e_answers_request(rq, tag, normal, status, xcase, location, srv)
+            if bad in ('status', 'token') and i > 0:
+                # requests i > 0 are only sent on a connection the previous response left open
+                return fail('wrong-response-for-request', i,
+                            f'{desc}, request {i} on the kept-alive connection (after {i} answered request(s)): {why}',
+                            'keepalive')
+            if bad in ('status', 'token'):
+                return fail('status-mismatch', i, f'{desc}: {why}')
+            if bad == 'header':
+                return fail('header-lost', i, f'{desc}: {why}')
+            if handler_body:
+                produced = srv.produced.pop(tag, None)
+                if produced is None:
+                    return fail('body-mismatch', i, f'{desc}: the controller was not reached')
+                want = (0, hashlib.sha256(b'').hexdigest()) if e2e_bodyless(rq) else produced
+                if (got, h.hexdigest()) != want:
+                    return fail('body-mismatch', i,
+                                f'{desc}: client read {got} bytes sha256 {h.hexdigest()[:16]}, '
+                                f'controller produced {want[0]} bytes sha256 {want[1][:16]}')
+            elif e2e_bodyless(rq, status) and got:
+                return fail('body-mismatch', i, f'{desc}: {got} body bytes on a response that has no body')
             if will_close:
                 bad = e2e_after_close(peek)
                 if bad:
@@ -691,8 +957,8 @@ def e2e_signature(case, failure):
     c = failure['clause']
     if c == 'body-mismatch':
         return f"e2e-body-mismatch({rq['body']},{e2e_size_class(rq['size'])})"
-    if c == 'undecodable':
-        return f"e2e-undecodable({failure['arg']})"
+    if c in ('undecodable', 'wrong-response-for-request'):
+        return f"e2e-{c}({failure['arg']})"
     return 'e2e-' + c
 
 
@@ -748,7 +1014,8 @@ def e2e_evaluate(ctx, cases, shrink=True):
                 ctx.count('e2e_connection_header', rq.get('conn') or 'absent')
                 ctx.count('e2e_body_kind', rq['body'])
                 ctx.count('e2e_body_size', e2e_size_class(rq['size']))
-                ctx.count('e2e_status', rq['status'])
+                ctx.count('e2e_status', ob['status'])
+                ctx.count('e2e_answered_by', E2E_ANSWERED_BY[rq.get('via')])
                 ctx.count('e2e_delimiter', ob['delimiter'])
                 ctx.count('e2e_connection_after', 'close-announced-and-seen' if ob['will_close'] else 'kept-alive')
             ctx.count('e2e_requests_per_connection', sum(1 for ob in obs if not ob['probe']))
@@ -773,7 +1040,8 @@ def e2e_evaluate(ctx, cases, shrink=True):
                             f"end to end (real sockets, http.client): response {ff['idx']} on the connection: "
                             f"{ff['detail']}; requests: "
                             + '; '.join(f"{r['method']} HTTP/{r['ver']} conn={r.get('conn')} status={r['status']} "
-                                        f"body={r['body']}[{r['size']} B, pieces of {r['piece'] or 'all'}]"
+                                        + (f"via={r['via']}" if r.get('via') else
+                                           f"body={r['body']}[{r['size']} B, pieces of {r['piece'] or 'all'}]")
                                         for r in fc['reqs']))
                 failing_s += time.time() - t0
             ctx.case(c, nontrivial=True, validated=failure is None)
@@ -793,7 +1061,10 @@ def e2e_case_list(ctx):
     small_sizes = [0, 1, 70 * KIB]
     pieces = [4096, 4097, 65537, 0]            # 0 = the whole body in one piece
 
-    def small():
+    def small(self_answered=0.0):
+        if rng.random() < self_answered:
+            via, status, method = rng.choice(E2E_SELF_ANSWERED)
+            return e2e_self_answered(via, status, method, '1.1', rng.choice([None, None, 'keep-alive']))
         return e2e_req(rng.choice(['GET', 'GET', 'HEAD']), '1.1', rng.choice([None, None, 'keep-alive']),
                        rng.choice(E2E_KINDS), rng.choice(small_sizes), rng.choice(pieces),
                        rng.choice([200, 200, 200, 200, 201, 404, 204, 304]))
@@ -819,14 +1090,16 @@ def e2e_case_list(ctx):
             if size > 1:
                 ver, conn = closing[(si + ki + 1) % 3]
                 cases.append(case([e2e_req('HEAD', ver, conn, kind, size, piece)]))
-    # (d) random connections
+    # (d) every self-answered request kind on kept-alive connections, mixed with ordinary requests
+    cases += e2e_keepalive_sequence_cases()
+    # (e) random connections
     for _ in range(16 * ctx.scale):
         reqs = []
         nreq = rng.randint(2, 3)
         for k in range(nreq):
             last = k == nreq - 1
-            rq = small()
-            if rng.random() < 0.25:
+            rq = small(0.2)
+            if not rq.get('via') and rng.random() < 0.25:
                 rq.update(size=rng.choice(sizes), status=200)
                 if rq['size'] >= MIB:
                     rq['piece'] = rng.choice([512 * KIB, 65537, 0])
@@ -855,22 +1128,37 @@ def run(ctx):
     ctx.rule = ('full product {GET,HEAD} x {1.1,1.0} x Connection{absent,keep-alive,close} x 16 body shapes '
                 '(str/bytes/list/unsized iterable/streamed generator/file/httperror; empty, blank parts, first part '
                 'empty) x 10 statuses, each followed by a second request on the same connection (exhaustive over '
-                'that table); body sizes around 16/256/BUFSIZE/2*BUFSIZE and 70 KiB per kind and version; random '
-                'sequences of 2-4 requests per connection; non-trivial = every case (each is a full exchange); '
+                'that table); directed keep-alive sequences: 5 version/Connection flavours x 8 self-answered '
+                'request kinds (un-normalised path /x/../c and /./c -> 301 of the path guard, GET and HEAD; unknown '
+                'path -> 404, GET and HEAD; handler returns httperror 404/403/500) x 3 positions (first, after a '
+                'GET, after a HEAD), each followed by two further requests of other kinds; body sizes around '
+                '16/256/BUFSIZE/2*BUFSIZE and 70 KiB per kind and version; random sequences of 2-4 requests per '
+                'connection (12% of the requests self-answered); oracle clause on every connection: response k >= 1 '
+                'on a kept-alive connection is the answer to request k (status, X-Case tag, Location); '
+                'non-trivial = every case (each is a full exchange); '
                 'distinct = distinct case; END-TO-END group (spec on impl only, no model comparison): a real '
                 'circuits.web.Server + Controller on 127.0.0.1:0 in a thread, SO_SNDBUF 64 KiB, driven by '
                 'http.client.HTTPConnection over loopback: 6 body kinds (bytes, str, list, generator, streamed '
                 'generator, file object) x sizes {0, 1, 70 KiB, 2 MiB (+ 8 MiB thorough)}, each once first on an '
                 'HTTP/1.1 keep-alive connection of 2-3 requests and once as HTTP/1.0 / Connection: close / '
-                'HTTP/1.0 keep-alive request (GET and HEAD), plus random connections; oracle: status, X-Case '
-                'header, body length + sha256 as produced by the controller, connection closed iff announced, '
-                'kept-alive connection answers a further request')
+                'HTTP/1.0 keep-alive request (GET and HEAD), plus 78 directed keep-alive sequences (13 '
+                'self-answered request kinds: un-normalised path, unknown path, handler returning httperror / '
+                'notfound / forbidden / redirect, GET and HEAD x HTTP/1.1, HTTP/1.1 keep-alive, HTTP/1.0 keep-alive x '
+                'first / after ordinary requests, 4-5 requests each), plus random connections (20% of the small '
+                'requests self-answered); oracle: status, X-Case header, body length + sha256 as produced by the '
+                'controller, connection closed iff announced, kept-alive connection answers a further request, '
+                'response k on a kept-alive connection is the answer to request k (own tag in X-Case / Location, '
+                'redirect of an un-normalised path points to the normal form of that very path)')
     ctx.exhaustive = False
     ctx.trusted += ['http.client.HTTPResponse as second, independent reader',
                     'request line / Connection header -> (HEAD?, version, keep-alive) is computed by the harness '
                     '(parser.should_keep_alive is C13 territory) and cross-checked by the correspondence',
                     'str parts are utf-8 encoded by the harness (Response.encoding = utf-8)',
                     'wrappers.formatdate is replaced by a constant (Date header masked)',
+                    'pages the server makes itself (301 of the path guard, 404 without handler): the expected body '
+                    'is str(event) of the httperror event as captured by the rig; expected status and Location are '
+                    'computed by the harness from the request target (un-normalised spellings used: /x/../<path> and '
+                    '/./<path>)',
                     'e2e group: http.client.HTTPConnection/HTTPResponse as the independent client (HTTP/1.0 request '
                     'lines via its _http_vsn attributes), the loopback TCP stack of the kernel, a dup()ed socket '
                     'handle to observe the server side close']
@@ -884,7 +1172,8 @@ def run(ctx):
                         '64 KiB set through the public socket_options keyword so that send() accepts only part of '
                         'a large piece']
     corpus = ctx.corpus()
-    groups = [[c for c in corpus if c.get('kind') != 'e2e'], product_cases(), size_cases(ctx), sequence_cases(ctx)]
+    groups = [[c for c in corpus if c.get('kind') != 'e2e'], keepalive_sequence_cases(), product_cases(),
+              size_cases(ctx), sequence_cases(ctx)]
     e2e_evaluate(ctx, [c for c in corpus if c.get('kind') == 'e2e'])
     for cases in groups:
         for i in range(0, len(cases), 200):
